@@ -1287,6 +1287,18 @@ class Interp(object):
                 return c[1] if c else None
         return None
 
+    def common_view(self, st, a, b):
+        """Terms of two integers in one interpretation (unsigned if both have one, else signed), or None."""
+        if a.kind == b.kind:
+            return a.lin, b.lin
+        ua, ub = self.ulin(st, a), self.ulin(st, b)
+        if ua is not None and ub is not None:
+            return ua, ub
+        sa, sb = self.slin(st, a), self.slin(st, b)
+        if sa is not None and sb is not None:
+            return sa, sb
+        return None
+
     def record_iter_end(self, st, fr, header, src):
         fn = fr.fn
         begin = st.flags.get('wbegin:' + fn.name)
@@ -1329,7 +1341,8 @@ class Interp(object):
             elif rel == 'same':
                 nv = self.slot_value(st, fr, name, newvals)
                 if isinstance(nv, IntV) and isinstance(ev, IntV):
-                    ok = nv.kind == ev.kind and st.is_eq0(nv.lin - ev.lin) is True
+                    pr = self.common_view(st, nv, ev)
+                    ok = pr is not None and st.is_eq0(pr[0] - pr[1]) is True
                 elif isinstance(nv, PtrV) and isinstance(ev, PtrV):
                     ok = nv.obj == ev.obj and (nv.obj is None or st.is_eq0(nv.off - ev.off) is True)
                 else:
@@ -1337,8 +1350,12 @@ class Interp(object):
             else:
                 nv = self.slot_value(st, fr, name, newvals)
                 if isinstance(nv, IntV) and isinstance(ev, IntV):
-                    d = (nv.lin - ev.lin) if rel == 'ge' else (ev.lin - nv.lin)
-                    ok = nv.kind == ev.kind and st.is_ge0(d) is True
+                    pr = self.common_view(st, nv, ev)
+                    if pr is None:
+                        ok = False
+                    else:
+                        d = (pr[0] - pr[1]) if rel == 'ge' else (pr[1] - pr[0])
+                        ok = st.is_ge0(d) is True
                 elif isinstance(nv, PtrV) and isinstance(ev, PtrV) and nv.obj == ev.obj:
                     d = (nv.off - ev.off) if (rel == 'ge' or str(rel).startswith('pl')) else (ev.off - nv.off)
                     ok = st.is_ge0(d) is True
@@ -1739,6 +1756,12 @@ class Interp(object):
                         st.ev('nsw-overflow?', inst, r, bits)
                     return self.mk_s(st, bits, r, inst, op)
             la, lb = self.as_u(st, a), self.as_u(st, b)
+            if op == 'add':
+                # adding a constant with the top bit set is a subtraction of its two's complement
+                if not lb.t and lb.c >= (M >> 1) and la.t:
+                    lb = Lin.const(lb.c - M)
+                elif not la.t and la.c >= (M >> 1) and lb.t:
+                    la = Lin.const(la.c - M)
             r = la + lb if op == 'add' else la - lb
             if op == 'sub' and inst.d.get('nsw'):
                 # signed subtraction flagged no-wrap: keep the signed view when the unsigned one would wrap
@@ -2189,6 +2212,10 @@ class Interp(object):
             s = self.cstring(st, p)
             if s is not None and eb == 1:
                 return self.const_int(64, len(s.encode('utf-8')))
+            oo = st.objs.get(p.obj)
+            if oo is not None and oo.attrs.get('cstr_len') is not None and not oo.attrs.get('cstr_weak') and oo.attrs.get('cstr_eb', 1) == eb:
+                self.access_check(st, inst, 'strlen', p, eb)
+                return IntV(64, (oo.attrs['cstr_len'] - p.off) if eb == 1 else self.fresh_int(st, 64, 'len').lin, 'u')
             a = ('strlen', p.obj, p.off, st.objs[p.obj].version if p.obj in st.objs else 0)
             if a not in st.rng:
                 st.rng[a] = (0, MAXLEN)
